@@ -3,11 +3,18 @@ import VOPyVerif.Model.Covered
 /-! Driver front end for property C10 ("is covered").
 
 Verdicts are `1` (covered, certified), `0` (not covered, certified), `inconclusive` (no certificate
-accepted by a checker).  `ValueError` mirrors the slack-size guard of the code.
+accepted by a checker).  `ValueError` mirrors the slack-size guard of the code.  For `rect` and `ball`
+`inconclusive` is impossible on well-formed input (`rect_isCovered_iff`, `rect_band_iff`,
+`ball_band_iff` in `Props/C10.lean`); the harness asserts this.
 
 * `rect <W> <l1> <u1> <l2> <u2> <slack> <tau>` → `v₊,v₀,v₋` : `Covered.rectIsCoveredTol` with the
   per-facet margin `+tau`, `0`, `−tau` (`v₀` is the model of `RectangularConfidenceRegion.is_covered`),
   or `ValueError`.
+* `rectfast <W> <l1> <u1> <l2> <u2> <slack> <tau>` → `v₊,v₀,v₋` of the fast path alone
+  (`Covered.rectVerdictFast`: Kohler-pruned search on the reduced system + lifted certificate); an
+  `inconclusive` here means `rect` had to take the complete fallback.
+* `rectfm <W> <l1> <u1> <l2> <u2> <slack> <tau>` → `1`/`0`/`inconclusive` of the complete fallback alone
+  (`LinCert.feasibleFM` on the full LP `rectSys` with margin `tau`), or `ValueError`.
 * `rectcert <W> <l1> <u1> <l2> <u2> <slack> <tau>` → the raw certificate of the search on the reduced
   system: `witness <d>` / `farkas <y>` / `ValueError` (re-checked independently by the harness).
 * `ball <W> <c1> <a1> <c2> <a2> <slack> <tau>` → `v₊,v₀,v₋` : `Covered.ballIsCoveredTol` (Σ = I), or
@@ -17,7 +24,9 @@ accepted by a checker).  `ValueError` mirrors the slack-size guard of the code.
 * `ell <W> <c1> <L1> <a1> <c2> <L2> <a2> <slack> <tau> <u1> <u2> <lam>` → verdict of
   `Covered.ellVerdict` with per-facet slack `slack + tau` and the proposed certificates
   (`_` for a missing one), or `ValueError`.
-* `feasible <n> <A> <b>` → `1`/`0`/`inconclusive` : `LinCert.feasible` for `A x ≥ b`.
+* `feasible <n> <A> <b>` → `1`/`0`/`inconclusive` : `LinCert.feasible` (fast, pruned search) for `A x ≥ b`.
+* `feasiblefm <n> <A> <b>` → `1`/`0`/`inconclusive` : `LinCert.feasibleFM` (plain Fourier–Motzkin, complete:
+  `inconclusive` only if some row does not have `n` coefficients).
 * `chkwit <n> <A> <b> <x>`, `chkfarkas <n> <A> <b> <y>`, `chkkkt <n> <A> <b> <c> <x> <lam>` →
   `ok` / `fail` : the three checkers of `Model/LinCert.lean`.
 -/
@@ -32,6 +41,15 @@ def three (f : Rat → Option Verdict) (tau : Rat) : String :=
   | some a, some b, some c => a.toString ++ "," ++ b.toString ++ "," ++ c.toString
   | _, _, _ => "ValueError"
 
+def optB : Option Bool → String
+  | some true => "1"
+  | some false => "0"
+  | none => "inconclusive"
+
+def rectFastTol (W : Mat) (l1 u1 l2 u2 slack : Vec) (tau : Rat) : Option Verdict :=
+  (expandSlack (ncols W) slack).map fun s =>
+    rectVerdictFast W l1 u1 l2 u2 s (List.replicate W.length tau)
+
 def okFail (b : Bool) : String := if b then "ok" else "fail"
 
 def handle (args : List String) : String :=
@@ -40,6 +58,19 @@ def handle (args : List String) : String :=
     match parseMat w, parseVec l1, parseVec u1, parseVec l2, parseVec u2, parseVec s, parseRat tau with
     | some W, some l1, some u1, some l2, some u2, some s, some tau =>
       three (rectIsCoveredTol W l1 u1 l2 u2 s) tau
+    | _, _, _, _, _, _, _ => bad
+  | ["rectfast", w, l1, u1, l2, u2, s, tau] =>
+    match parseMat w, parseVec l1, parseVec u1, parseVec l2, parseVec u2, parseVec s, parseRat tau with
+    | some W, some l1, some u1, some l2, some u2, some s, some tau =>
+      three (rectFastTol W l1 u1 l2 u2 s) tau
+    | _, _, _, _, _, _, _ => bad
+  | ["rectfm", w, l1, u1, l2, u2, s, tau] =>
+    match parseMat w, parseVec l1, parseVec u1, parseVec l2, parseVec u2, parseVec s, parseRat tau with
+    | some W, some l1, some u1, some l2, some u2, some s, some tau =>
+      match expandSlack (ncols W) s with
+      | none => "ValueError"
+      | some sv =>
+        optB (feasibleFM (2 * l1.length) (rectSys W l1 u1 l2 u2 sv (List.replicate W.length tau)))
     | _, _, _, _, _, _, _ => bad
   | ["rectcert", w, l1, u1, l2, u2, s, tau] =>
     match parseMat w, parseVec l1, parseVec u1, parseVec l2, parseVec u2, parseVec s, parseRat tau with
@@ -80,10 +111,14 @@ def handle (args : List String) : String :=
     match n.toNat?, parseMat a, parseVec b with
     | some n, some A, some b =>
       match mkSys A b with
-      | some S => match feasible n S with
-        | some true => "1"
-        | some false => "0"
-        | none => "inconclusive"
+      | some S => optB (feasible n S)
+      | none => bad
+    | _, _, _ => bad
+  | ["feasiblefm", n, a, b] =>
+    match n.toNat?, parseMat a, parseVec b with
+    | some n, some A, some b =>
+      match mkSys A b with
+      | some S => optB (feasibleFM n S)
       | none => bad
     | _, _, _ => bad
   | ["chkwit", n, a, b, x] =>
